@@ -25,8 +25,9 @@ def directed(judge):
                                             [{"a": "Save", "ser": ser}, {"a": "Load", "target": target}, {"a": "Forward", "x": "x1"},
                                              {"a": "Save", "ser": "none"}, {"a": "Load", "target": "same"}]})
                 elif judge == "C11":
-                    out.append({"arch": arch, "prog": [q] + cal + [{"a": "OptStep"}, {"a": "Forward", "x": "x1"}, {"a": "OptStep"}, {"a": "Forward", "x": "x2"},
-                                                                   {"a": "Freeze"}, {"a": "OptStep"}, {"a": "Forward", "x": "x1"}]})
+                    out.append({"arch": arch, "prog": [q] + cal + [{"a": "Forward", "x": "x2"}, {"a": "OptStep", "via": "data"}, {"a": "Forward", "x": "x1"}, {"a": "OptStep", "via": "inplace"}, {"a": "Forward", "x": "x2"},
+                                                                   {"a": "OptStep", "via": "copy"}, {"a": "Forward", "x": "x2"},
+                                                                   {"a": "Freeze"}, {"a": "OptStep", "via": "data"}, {"a": "Forward", "x": "x1"}]})
                 elif judge == "C13":
                     out.append({"arch": arch, "prog": [q, {"a": "EnterCalib", "momentum": "m50", "streamline": True}, {"a": "EnterCalib", "momentum": "m90", "streamline": False},
                                                        {"a": "CalibBatch", "batch": "b1"}, {"a": "LibCall"}, {"a": "ForeignBatch"}, {"a": "RaiseIn", "batch": "b2", "k": 1}, {"a": "Forward", "x": "x1"}, {"a": "LibCall"},
